@@ -192,6 +192,11 @@ def build(case):
                 cur_p = p2
             expected.append((tuple(s2), p2, obj_expected(o2)))
             j += 1
+        if case.get("dangling") and gr.pick(3) == 0:
+            stoks.append(";")           # 'ex:s ex:p ex:o ; .'
+            if gr.pick(4) == 0:
+                stoks.append(";")
+            labels.add("dangling-semicolon")
         stoks.append(".")
         tokens.append(stoks)
         i = j
@@ -479,7 +484,7 @@ def cases(draw):
     ints = st.lists(st.integers(0, 41), min_size=1, max_size=24)
     case = {"triples": triples, "forms": draw(ints), "seps": draw(ints), "comments": draw(ints), "group": draw(ints),
             "base": draw(st.sampled_from([False, True, 2])), "prefix_mask": draw(st.integers(0, 255)),
-            "chan": draw(st.sampled_from(["raw", "raw", "raw", "raw", "file", "gz", "xz"]))}
+            "chan": draw(st.sampled_from(["raw", "raw", "raw", "raw", "file", "gz", "xz"])), "dangling": draw(st.integers(0, 3)) == 0}
     if draw(st.integers(0, 3)) == 0:
         case["rebind"] = draw(ints)
     if draw(st.integers(0, 5)) == 0:
